@@ -315,6 +315,12 @@ def plan(tier, seed):
             # a run that timed out must leave nothing behind: timed run at expiry point k, then an unlimited run of the same text
             for k in sorted({0, N // 7, N // 3, N // 2, (2 * N) // 3}):
                 yield ("after", text, ts_s, mode, depth, k)
+            # a stream WITHOUT deadline is consumed step by step while another parse with a short deadline runs (and expires) in between:
+            # the deadline belongs to one run, the unlimited stream must still deliver everything
+            if mode == "reads":
+                for j in (1, 2):
+                    for kb in (0, 3, 20, 60):
+                        yield ("overlap", text, ts_s, mode, depth, (j, kb))
 
     space = {
         "inputs": len(inputs),
@@ -333,6 +339,34 @@ def run_case(case):
     full, N, L, R, nseq, _cost = _baseline(mode, text, ts_s, depth)
     v = []
     sig = {"mode": mode}
+    if kind == "overlap":
+        j, kb = k
+        cp, gen, m = lib()
+        _env.clock = VClock("reads")
+        _env.after = {"scorings": 0, "initial_scorings": 0, "rules": 0, "elements": set(), "analyses": 0}
+        _env.nb_mode = False
+
+        def ob(c):
+            r = c.resolution
+            return (obs(r), r.mstart, r.mend, tuple(c.production), c.score)
+
+        got = []
+        try:
+            g = gen(text, ts=ts, timeout=0, max_stack_depth=depth, scorer=_env.scorer(m._DEFAULT_SCORER), latent_time=False)
+            for _ in range(j):
+                c = next(g, None)
+                if c is None:
+                    break
+                got.append(ob(c))
+            for other in ("tomorrow 5pm", "1 1"):
+                list(gen(other, ts=ts, timeout=kb + 0.5, max_stack_depth=depth, scorer=_env.scorer(m._DEFAULT_SCORER), latent_time=False))
+            got += [ob(c) for c in g if c is not None]
+        except Exception as e:  # noqa
+            v.append(viol(dict(sig, kind="raises", exc=type(e).__name__, api="overlap"), "{!r}: unlimited stream interleaved with a timed parse raised {!r}".format(text, e)))
+            return {"o": "overlap", "nt": True, "v": v}
+        if _norm(got) != _norm(full):
+            v.append(viol(dict(sig, kind="deadline_of_another_run_applied"), "{!r} depth={}: a stream opened with timeout=0, stepped {} times, then two other texts parsed with timeout={} and the stream drained: {} candidates, alone {}".format(text, depth, j, kb + 0.5, len(got), len(full))))
+        return {"o": "overlap", "nt": True, "v": v}
     if kind == "after":
         _env.run(mode, text, ts, depth, k + 0.5, "gen")
         out, st, exc = _env.run(mode, text, ts, depth, 0, "gen")
